@@ -8,16 +8,16 @@ MUTANTS = [
          new="        self._cached_smooth_fa = False\n        self._cached_response_spectra = False",
          why="AccSignal.clear_cache keeps the Fourier spectrum"),
     dict(id="c04-acc-clear-rs", prop="C04", file="eqsig/single.py",
-         old="        self._cached_fa = False\n        self._cached_response_spectra = False\n        self._cached_disp_and_velo = False\n        self.reset_all_motion_stats()",
-         new="        self._cached_fa = False\n        self._cached_disp_and_velo = False\n        self.reset_all_motion_stats()",
+         old="        self._cached_fa = False\n        self._cached_response_spectra = False\n        self._cached_disp_and_velo = False\n",
+         new="        self._cached_fa = False\n        self._cached_disp_and_velo = False\n",
          why="clear_cache keeps response spectra"),
     dict(id="c04-acc-clear-vd", prop="C04", file="eqsig/single.py",
-         old="        self._cached_response_spectra = False\n        self._cached_disp_and_velo = False\n        self.reset_all_motion_stats()",
-         new="        self._cached_response_spectra = False\n        self.reset_all_motion_stats()",
+         old="        self._cached_response_spectra = False\n        self._cached_disp_and_velo = False\n        self.__dict__.pop(",
+         new="        self._cached_response_spectra = False\n        self.__dict__.pop(",
          why="clear_cache keeps velocity/displacement"),
     dict(id="c04-acc-clear-stats", prop="C04", file="eqsig/single.py",
-         old="        self._cached_disp_and_velo = False\n        self.reset_all_motion_stats()",
-         new="        self._cached_disp_and_velo = False",
+         old="  # Stockwell transform cached on the object by eqsig.stockwell\n        self.reset_all_motion_stats()",
+         new="  # Stockwell transform cached on the object by eqsig.stockwell",
          why="clear_cache keeps pga/pgv/pgd"),
     dict(id="c04-sig-clear-fa", prop="C04", file="eqsig/single.py",
          old='        """Resets the dynamically calculated properties."""\n        self._cached_smooth_fa = False\n        self._cached_fa = False',
@@ -52,8 +52,8 @@ MUTANTS = [
          new="        self._values = _float_array(new_values)\n        self.clear_cache()",
          why="reset_values keeps the old npts"),
     dict(id="c04-gen-smooth-flag", prop="C04", file="eqsig/single.py",
-         old="        if smooth_fa_freqs is not None:\n            self._smooth_fa_freqs = smooth_fa_freqs\n        self._smooth_fa_spectrum",
-         new="        if smooth_fa_freqs is not None:\n            self._smooth_fa_freqs = smooth_fa_freqs\n        if self._cached_smooth_fa and smooth_fa_freqs is not None and len(smooth_fa_freqs) == len(self._smooth_fa_spectrum):\n            return\n        self._smooth_fa_spectrum",
+         old="        if smooth_fa_freqs is not None:\n            self._smooth_fa_freqs = np.array(smooth_fa_freqs, dtype=float)\n        self._smooth_fa_spectrum",
+         new="        if smooth_fa_freqs is not None:\n            self._smooth_fa_freqs = np.array(smooth_fa_freqs, dtype=float)\n        if self._cached_smooth_fa and smooth_fa_freqs is not None and len(smooth_fa_freqs) == len(self._smooth_fa_spectrum):\n            return\n        self._smooth_fa_spectrum",
          why="gen_smooth_fa_spectrum(new freqs) skipped when a same-length spectrum is cached"),
     # ---- window mutants (mid-range clauses): the old code below an arbitrary size, a subtly wrong variant above it ----------
     dict(id="c04-mid-smooth-weights-ends-key", prop="C04", file="eqsig/single.py",
@@ -163,4 +163,8 @@ MUTANTS = [
              "                                                               self.fa_spectrum, self.smooth_fa_freqs, band=band)\n"
              "        self._cached_smooth_fa = True",
          why="survive: Fourier frequencies x targets > 1e6: smoothing evaluated for 64 targets at a time (correct blocked implementation)"),
+    dict(id="c04-revert-fix-gen-fa-keeps-smooth", prop="C04", file="eqsig/single.py",
+         old="        self._cached_fa = True\n        self._cached_smooth_fa = False  # the smoothed spectrum is derived from the Fourier spectrum just replaced",
+         new="        self._cached_fa = True",
+         why="reverts fix da9cde1: gen_fa_spectrum(p2_plus=) / (n=) leaves a previously cached smoothed spectrum in place"),
 ]
